@@ -292,4 +292,156 @@ theorem tailBack_spec (r : Ring) (hr : RingInv r) (id : String) (tail : Nat) (mi
       have : ¬ found < tail := fun hf => hc ⟨h, hf⟩
       omega
 
+/-! ## new at full strength: decode accepts ONLY encode's image; the initial bookmark; delivered positions -/
+
+theorem u8_ofNat_toNat (a : UInt8) : UInt8.ofNat a.toNat = a := by
+  cases a; simp
+
+theorem fromBe64_lt (l : List UInt8) (hl : l.length = 8) : fromBe64 l < 2^64 := by
+  match l, hl with
+  | [a, b, c, d, e, f, g, h], _ =>
+    simp only [fromBe64]
+    have := a.toNat_lt; have := b.toNat_lt; have := c.toNat_lt; have := d.toNat_lt
+    have := e.toNat_lt; have := f.toNat_lt; have := g.toNat_lt; have := h.toNat_lt
+    omega
+
+theorem be64_fromBe64 (l : List UInt8) (hl : l.length = 8) : be64 (fromBe64 l) = l := by
+  match l, hl with
+  | [a, b, c, d, e, f, g, h], _ =>
+    have ha := a.toNat_lt; have hb := b.toNat_lt; have hc := c.toNat_lt; have hd := d.toNat_lt
+    have he := e.toNat_lt; have hf := f.toNat_lt; have hg := g.toNat_lt; have hh := h.toNat_lt
+    simp only [fromBe64, be64]
+    have e1 : (a.toNat * 2^56 + b.toNat * 2^48 + c.toNat * 2^40 + d.toNat * 2^32 + e.toNat * 2^24 + f.toNat * 2^16 + g.toNat * 2^8 + h.toNat) / 2^56 % 256 = a.toNat := by omega
+    have e2 : (a.toNat * 2^56 + b.toNat * 2^48 + c.toNat * 2^40 + d.toNat * 2^32 + e.toNat * 2^24 + f.toNat * 2^16 + g.toNat * 2^8 + h.toNat) / 2^48 % 256 = b.toNat := by omega
+    have e3 : (a.toNat * 2^56 + b.toNat * 2^48 + c.toNat * 2^40 + d.toNat * 2^32 + e.toNat * 2^24 + f.toNat * 2^16 + g.toNat * 2^8 + h.toNat) / 2^40 % 256 = c.toNat := by omega
+    have e4 : (a.toNat * 2^56 + b.toNat * 2^48 + c.toNat * 2^40 + d.toNat * 2^32 + e.toNat * 2^24 + f.toNat * 2^16 + g.toNat * 2^8 + h.toNat) / 2^32 % 256 = d.toNat := by omega
+    have e5 : (a.toNat * 2^56 + b.toNat * 2^48 + c.toNat * 2^40 + d.toNat * 2^32 + e.toNat * 2^24 + f.toNat * 2^16 + g.toNat * 2^8 + h.toNat) / 2^24 % 256 = e.toNat := by omega
+    have e6 : (a.toNat * 2^56 + b.toNat * 2^48 + c.toNat * 2^40 + d.toNat * 2^32 + e.toNat * 2^24 + f.toNat * 2^16 + g.toNat * 2^8 + h.toNat) / 2^16 % 256 = f.toNat := by omega
+    have e7 : (a.toNat * 2^56 + b.toNat * 2^48 + c.toNat * 2^40 + d.toNat * 2^32 + e.toNat * 2^24 + f.toNat * 2^16 + g.toNat * 2^8 + h.toNat) / 2^8 % 256 = g.toNat := by omega
+    have e8 : (a.toNat * 2^56 + b.toNat * 2^48 + c.toNat * 2^40 + d.toNat * 2^32 + e.toNat * 2^24 + f.toNat * 2^16 + g.toNat * 2^8 + h.toNat) % 256 = h.toNat := by omega
+    rw [e1, e2, e3, e4, e5, e6, e7, e8]
+    simp only [u8_ofNat_toNat]
+
+theorem toU64_toI64 (u : Nat) (h : u < 2^64) : toU64 (toI64 u) = u := by
+  unfold toU64 toI64
+  by_cases hu : u < 2^63
+  · rw [if_pos hu]; omega
+  · rw [if_neg hu]; omega
+
+/-- **Decode accepts only encode's image** (the converse of `bookmark_roundtrip`): a byte string that decodes to
+    `p` IS `encodeBookmark cookie p` — no over-long, padded or otherwise different string is taken for a bookmark. -/
+theorem decode_only_encoded (cookie : List UInt8) (b : List UInt8) (p : Int)
+    (h : decodeBookmark cookie b = some p) : b = encodeBookmark cookie p := by
+  unfold decodeBookmark at h
+  by_cases hl : b.length ≠ 16
+  · rw [if_pos hl] at h; cases h
+  · rw [if_neg hl] at h
+    by_cases hc : b.take 8 ≠ cookie
+    · rw [if_pos hc] at h; cases h
+    · rw [if_neg hc] at h
+      have hl16 : b.length = 16 := by omega
+      have hc' : b.take 8 = cookie := by
+        by_cases hx : b.take 8 = cookie
+        · exact hx
+        · exact absurd hx hc
+      have hd8 : (b.drop 8).length = 8 := by simp [hl16]
+      have hp : p = toI64 (fromBe64 (b.drop 8)) := (Option.some.inj h).symm
+      unfold encodeBookmark
+      rw [hp, toU64_toI64 _ (fromBe64_lt _ hd8), be64_fromBe64 _ hd8, ← hc', List.take_append_drop]
+
+theorem decode_length (cookie : List UInt8) (b : List UInt8) (p : Int) (h : decodeBookmark cookie b = some p) :
+    b.length = 16 := by
+  unfold decodeBookmark at h
+  by_cases hl : b.length ≠ 16
+  · rw [if_pos hl] at h; cases h
+  · omega
+
+theorem flatten_map_singleton (f : Res → Event) (l : List Res) :
+    (l.map ((fun e => [e]) ∘ f)).flatten = l.map f := by
+  induction l with
+  | nil => rfl
+  | cons x xs ih => simp [ih]
+
+/-- what a kind watch starts with, flattened: the snapshot as Created events and one Bootstrapped (with
+    BootstrapContents), then one Noop (with BootstrapBookmark), the latter two with the bookmark `pos - 1` -/
+theorem kindInit_flatten (contents : List Res) (ns typ : String) (agg : Bool) (o : StartOpts) (pos : Nat) :
+    (kindInit contents ns typ agg o pos).flatten =
+      (if o.bootstrap then contents.map (fun c => ({ typ := .created, res := c } : Event)) ++
+          [{ typ := .bootstrapped, res := tombstone ns typ "", bm := some ((pos : Int) - 1) }] else []) ++
+      (if o.bootstrapBookmark then [{ typ := .noop, res := tombstone ns typ "", bm := some ((pos : Int) - 1) }] else []) := by
+  unfold kindInit
+  cases o.bootstrap <;> cases o.bootstrapBookmark <;> cases agg <;> simp [flatten_map_singleton]
+
+/-- every Bootstrapped / Noop event among the initial deliveries for position `pos` carries the bookmark `pos - 1` -/
+theorem kindInit_bm (contents : List Res) (ns typ : String) (agg : Bool) (o : StartOpts) (pos : Nat) :
+    ∀ e ∈ (kindInit contents ns typ agg o pos).flatten, (e.typ = .bootstrapped ∨ e.typ = .noop) →
+      e.bm = some ((pos : Int) - 1) := by
+  intro e he ht
+  rw [kindInit_flatten] at he
+  rcases List.mem_append.1 he with h1 | h2
+  · cases hb : o.bootstrap
+    · rw [hb] at h1; simp at h1
+    · rw [hb] at h1
+      simp only [if_true, List.mem_append, List.mem_map, List.mem_cons, List.not_mem_nil, or_false] at h1
+      rcases h1 with ⟨c, _, rfl⟩ | rfl
+      · rcases ht with ht | ht <;> cases ht
+      · rfl
+  · cases hbb : o.bootstrapBookmark
+    · rw [hbb] at h2; simp at h2
+    · rw [hbb] at h2
+      simp only [if_true, List.mem_cons, List.not_mem_nil, or_false] at h2
+      subst h2; rfl
+
+theorem startKind_init (r : Ring) (c : List Res) (ns typ : String) (agg : Bool) (o : StartOpts)
+    (pos : Nat) (init : List Delivery) (h : startKind r c ns typ agg o = .ok (pos, init)) :
+    init = kindInit c ns typ agg o pos := by
+  unfold startKind at h
+  split at h
+  · cases h
+  · split at h
+    · cases h
+    · cases hk : kindStartPos r o with
+      | error e => rw [hk] at h; cases h
+      | ok p =>
+        rw [hk] at h
+        injection h with h; injection h with h1 h2; subst h1; exact h2.symm
+
+/-- **The initial bookmark names the position right before the first replayed event**: every Bootstrapped / Noop
+    event a kind watch starts with carries the bookmark `pos - 1` for the position `pos` the watch replays from
+    (after TailEvents / StartFromBookmark moved it), so a client that resumes from it receives exactly what the
+    interrupted watch would have delivered next (`resume_concatenates` with `p + 1 = pos`). -/
+theorem initial_bookmark_precedes_replay (r : Ring) (c : List Res) (ns typ : String) (agg : Bool) (o : StartOpts)
+    (pos : Nat) (init : List Delivery) (h : startKind r c ns typ agg o = .ok (pos, init)) :
+    ∀ e ∈ init.flatten, (e.typ = .bootstrapped ∨ e.typ = .noop) → e.bm = some ((pos : Int) - 1) := by
+  rw [startKind_init r c ns typ agg o pos init h]
+  exact kindInit_bm c ns typ agg o pos
+
+/-- the view a watcher has of a logged event keeps the event's bookmark -/
+theorem view_bm (w : Watcher) (e e' : Event) (h : view w e = some e') : e'.bm = e.bm := by
+  unfold view at h
+  split at h
+  · split at h
+    · cases h; rfl
+    · cases h
+  · exact rewrite_bm _ _ _ h
+
+/-- **Every delivered change event carries the bookmark of its own log position**: what a watcher makes of the
+    log segment `[a, b)` consists of events whose bookmark is a position of that segment (with `C02.RingInv.bm`:
+    the position the event was committed at), so every delivered event is resumable from. -/
+theorem delivered_carries_position (r : Ring) (hr : RingInv r) (w : Watcher) (a b : Nat) :
+    ∀ e' ∈ (seg r.log a b).filterMap (view w), ∃ p : Nat, a ≤ p ∧ p < b ∧ e'.bm = some (p : Int) := by
+  intro e' he'
+  rw [List.mem_filterMap] at he'
+  obtain ⟨e, he, hv⟩ := he'
+  unfold seg at he
+  obtain ⟨i, hi, hget⟩ := List.mem_iff_getElem.1 he
+  rw [List.getElem_take, List.getElem_drop] at hget
+  have hlen : i < b - a := by
+    have := hi; simp only [List.length_take, List.length_drop] at this; omega
+  have hlog : r.log[a + i]? = some e := by
+    rw [← hget]; exact List.getElem?_eq_getElem _
+  refine ⟨a + i, by omega, by omega, ?_⟩
+  rw [view_bm w e e' hv]
+  exact hr.bm (a + i) e hlog
+
 end Cosi.C12
